@@ -13,6 +13,55 @@ import LMV.Lemmas.DistPvalue
 namespace LMV.C11
 open LMV.Dist
 
+/-! ### a concrete instance of the hypotheses (non-vacuity of every theorem below)
+
+Two rows over three symbols, range `R = 4`; the third symbol has background mass 1/4 and a −∞
+entry in the first row, so the table is a proper sub-distribution (total mass 3/4).
+`build` gives scale 2, offset −1, integer matrix `[[0,3,MIN],[2,4,3]]`,
+`sf = [3/4, 3/4, 3/4, 1/2, 3/8, 1/4, 1/8, 1/16, 0]`, `min_score = 2`, `max_score = 7`. -/
+namespace Witness
+
+def syms : List Nat := [0, 1, 2]
+def bg : List Rat := [1/2, 1/4, 1/4]
+def mat : List (List (Option Rat)) := [[some (-1), some (1/2), none], [some 0, some (3/4), some (1/4)]]
+
+theorem hyp : Hyp 4 syms bg mat where
+  bg_nonneg := by decide +kernel
+  bg_sum := by decide +kernel
+  cols := by decide
+  i32_size := by decide
+  i32_cells := by decide +kernel
+
+theorem built : ∃ d, build 4 syms bg mat = some d ∧ 0 < d.scale ∧
+    d.sf = #[3/4, 3/4, 3/4, 1/2, 3/8, 1/4, 1/8, 1/16, 0] ∧ d.minScore = 2 ∧ d.maxScore = 7 ∧
+    d.pvalue (1/2) = 1/4 ∧ d.SearchAdmissible (1/2) 3 ∧ d.SearchAdmissible (2/5) 4 := by
+  have h : (match build 4 syms bg mat with
+      | some d => decide (0 < d.scale) && decide (d.sf = #[3/4, 3/4, 3/4, 1/2, 3/8, 1/4, 1/8, 1/16, 0])
+          && decide (d.minScore = 2) && decide (d.maxScore = 7) && decide (d.pvalue (1/2) = 1/4)
+          && d.searchAdmissibleB (1/2) 3 && d.searchAdmissibleB (2/5) 4
+      | none => false) = true := by decide +kernel
+  cases hb : build 4 syms bg mat with
+  | none => rw [hb] at h; cases h
+  | some d =>
+    rw [hb] at h
+    simp only [Bool.and_eq_true, decide_eq_true_eq] at h
+    obtain ⟨⟨⟨⟨⟨⟨h1, h2⟩, h3⟩, h4⟩, h5⟩, h6⟩, h7⟩ := h
+    exact ⟨d, rfl, h1, h2, h3, h4, h5, (searchAdmissibleB_iff d _ _).mp h6, (searchAdmissibleB_iff d _ _).mp h7⟩
+
+/-- the same matrix without the third symbol: a full distribution -/
+def syms2 : List Nat := [0, 1]
+def bg2 : List Rat := [1/2, 1/2]
+def mat2 : List (List (Option Rat)) := [[some (-1), some (1/2)], [some 0, some (3/4)]]
+
+theorem hyp2 : Hyp 4 syms2 bg2 mat2 where
+  bg_nonneg := by decide +kernel
+  bg_sum := by decide +kernel
+  cols := by decide
+  i32_size := by decide
+  i32_cells := by decide +kernel
+
+end Witness
+
 variable {R : Nat} {syms : List Nat} {bg : List Rat} {m : List (List (Option Rat))} {d : Dist Rat}
 
 /-! ### (1) the density is the distribution of the integer score -/
@@ -22,6 +71,12 @@ theorem pdf_eq_prob (hyp : Hyp R syms bg m) (h : build R syms bg m = some d) (hs
     (j : Nat) : vget (pdfOf R syms bg d.data) j = prob syms bg m.length (dEq d.data j) :=
   (build_facts hyp h hs).pdf j
 
+example : ∃ d, build 4 Witness.syms Witness.bg Witness.mat = some d ∧
+    ∀ j, vget (pdfOf 4 Witness.syms Witness.bg d.data) j
+      = prob Witness.syms Witness.bg 2 (dEq d.data j) := by
+  obtain ⟨d, hb, hs, _⟩ := Witness.built
+  exact ⟨d, hb, pdf_eq_prob Witness.hyp hb hs⟩
+
 /-- `0 ≤ D ≤ R·M` (`D` is a natural number; `R = 1000`) -/
 theorem dscore_range (hyp : Hyp R syms bg m) (h : build R syms bg m = some d) (hs : 0 < d.scale)
     {w : List Nat} (hw : w ∈ words syms m.length) {t : Nat} (ht : dscore d.data w = some t) :
@@ -29,10 +84,22 @@ theorem dscore_range (hyp : Hyp R syms bg m) (h : build R syms bg m = some d) (h
   have := (build_facts hyp h hs).wordBound w hw t ht
   rw [Nat.mul_comm]; exact this
 
+example : ∃ d, build 4 Witness.syms Witness.bg Witness.mat = some d ∧
+    dscore d.data [1, 1] = some 7 ∧ [1, 1] ∈ words Witness.syms 2 ∧ 7 ≤ 4 * 2 := by
+  obtain ⟨d, hb, hs, _⟩ := Witness.built
+  have h : (match build 4 Witness.syms Witness.bg Witness.mat with
+      | some d => decide (dscore d.data [1, 1] = some 7) | none => false) = true := by decide +kernel
+  rw [hb] at h
+  exact ⟨d, hb, by simpa using h, by decide, by decide⟩
+
 /-! ### (2) the survival function -/
 
 theorem sf_size (hyp : Hyp R syms bg m) (h : build R syms bg m = some d) (hs : 0 < d.scale) :
     d.sf.size = m.length * R + 1 := (build_facts hyp h hs).size
+
+example : ∃ d, build 4 Witness.syms Witness.bg Witness.mat = some d ∧ d.sf.size = 2 * 4 + 1 := by
+  obtain ⟨d, hb, hs, _⟩ := Witness.built
+  exact ⟨d, hb, sf_size Witness.hyp hb hs⟩
 
 /-- `sf[j] = P(D ≥ j)` -/
 theorem sf_eq_tail (hyp : Hyp R syms bg m) (h : build R syms bg m = some d) (hs : 0 < d.scale)
@@ -40,17 +107,33 @@ theorem sf_eq_tail (hyp : Hyp R syms bg m) (h : build R syms bg m = some d) (hs 
     vget d.sf j = prob syms bg m.length (dGe d.data (j : Int)) :=
   (build_facts hyp h hs).sf j hj
 
+example : ∃ d, build 4 Witness.syms Witness.bg Witness.mat = some d ∧
+    vget d.sf 3 = prob Witness.syms Witness.bg 2 (dGe d.data 3) ∧ vget d.sf 3 = 1/2 := by
+  obtain ⟨d, hb, hs, hsf, _⟩ := Witness.built
+  have h3 : 3 < d.sf.size := by rw [hsf]; decide
+  refine ⟨d, hb, sf_eq_tail Witness.hyp hb hs h3, ?_⟩
+  rw [hsf]; decide +kernel
+
 /-- `sf` is non-increasing -/
 theorem sf_antitone (hyp : Hyp R syms bg m) (h : build R syms bg m = some d) (hs : 0 < d.scale)
     {i j : Nat} (hij : i ≤ j) (hj : j < d.sf.size) : vget d.sf j ≤ vget d.sf i := by
   rw [sf_eq_tail hyp h hs hj, sf_eq_tail hyp h hs (lt_of_le_of_lt hij hj)]
   exact prob_mono hyp.bg_nonneg _ _ _ (fun w _ => dGe_antitone d.data (by omega) w)
 
+example : ∃ d, build 4 Witness.syms Witness.bg Witness.mat = some d ∧ vget d.sf 5 ≤ vget d.sf 3 := by
+  obtain ⟨d, hb, hs, hsf, _⟩ := Witness.built
+  exact ⟨d, hb, sf_antitone Witness.hyp hb hs (by decide) (by rw [hsf]; decide)⟩
+
 /-- `sf` has values in `[0, 1]` -/
 theorem sf_mem_unit (hyp : Hyp R syms bg m) (h : build R syms bg m = some d) (hs : 0 < d.scale)
     {j : Nat} (hj : j < d.sf.size) : 0 ≤ vget d.sf j ∧ vget d.sf j ≤ 1 := by
   rw [sf_eq_tail hyp h hs hj]
   exact ⟨prob_nonneg hyp.bg_nonneg _ _, prob_le_one hyp.bg_nonneg hyp.bg_sum _ _⟩
+
+example : ∃ d, build 4 Witness.syms Witness.bg Witness.mat = some d ∧
+    0 ≤ vget d.sf 0 ∧ vget d.sf 0 ≤ 1 := by
+  obtain ⟨d, hb, hs, hsf, _⟩ := Witness.built
+  exact ⟨d, hb, sf_mem_unit Witness.hyp hb hs (by rw [hsf]; decide)⟩
 
 /-! ### (3) discretisation error and the two-sided bound on the p-value -/
 
@@ -63,6 +146,12 @@ theorem skipped_iff (hyp : Hyp R syms bg m) (h : build R syms bg m = some d) (hs
     ⟨hr, hd⟩ | ⟨v, t, hr, hd, _⟩
   · rw [← F.data] at hd; simp [hr, hd]
   · rw [← F.data] at hd; simp [hr, hd]
+
+example : ∃ d, build 4 Witness.syms Witness.bg Witness.mat = some d ∧
+    rscore Witness.mat [2, 0] = none ∧ dscore d.data [2, 0] = none := by
+  obtain ⟨d, hb, hs, _⟩ := Witness.built
+  have hr : rscore Witness.mat [2, 0] = none := by decide +kernel
+  exact ⟨d, hb, hr, (skipped_iff Witness.hyp hb hs (by decide)).mpr hr⟩
 
 /-- `|D(w) − scale·(S(w) − M·offset)| ≤ M/2` -/
 theorem disc_error (hyp : Hyp R syms bg m) (h : build R syms bg m = some d) (hs : 0 < d.scale)
@@ -78,6 +167,15 @@ theorem disc_error (hyp : Hyp R syms bg m) (h : build R syms bg m = some d) (hs 
     rw [hr] at hv; rw [hd] at ht; cases hv; cases ht
     rw [abs_le]; constructor <;> linarith
 
+example : ∃ d, build 4 Witness.syms Witness.bg Witness.mat = some d ∧
+    |((7 : Nat) : Rat) - d.scale * ((5/4 : Rat) - (2 : Nat) * d.offset)| ≤ ((2 : Nat) : Rat) / 2 := by
+  obtain ⟨d, hb, hs, _⟩ := Witness.built
+  have h : (match build 4 Witness.syms Witness.bg Witness.mat with
+      | some d => decide (dscore d.data [1, 1] = some 7) | none => false) = true := by decide +kernel
+  rw [hb] at h
+  have hr : rscore Witness.mat [1, 1] = some (5/4) := by decide +kernel
+  exact ⟨d, hb, disc_error Witness.hyp hb hs (w := [1, 1]) (by decide) hr (by simpa using h)⟩
+
 /-- `pvalue s = P(D ≥ round((s − M·offset)·scale))`, in every branch of `pvalue` (below the minimum
     score, inside the table, past its end; `as i32` saturating or not) -/
 theorem pvalue_eq_tail (hyp : Hyp R syms bg m) (h : build R syms bg m = some d) (hs : 0 < d.scale)
@@ -85,6 +183,12 @@ theorem pvalue_eq_tail (hyp : Hyp R syms bg m) (h : build R syms bg m = some d) 
     d.pvalue s =
       prob syms bg m.length (dGe d.data (ratRound ((s - m.length * d.offset) * d.scale))) :=
   pvalue_eq hyp (build_facts hyp h hs) s
+
+example : ∃ d, build 4 Witness.syms Witness.bg Witness.mat = some d ∧ d.pvalue (1/2) = 1/4 ∧
+    d.pvalue (1/2) = prob Witness.syms Witness.bg 2
+      (dGe d.data (ratRound ((1/2 - ((2 : Nat) : Rat) * d.offset) * d.scale))) := by
+  obtain ⟨d, hb, hs, _, _, _, hpv, _⟩ := Witness.built
+  exact ⟨d, hb, hpv, pvalue_eq_tail Witness.hyp hb hs (1/2)⟩
 
 /-- Clause (3): with `dd` at least `(M+1)/2` discretisation steps (`(M+1)/2 ≤ dd·scale`),
     `P(S ≥ s + dd) ≤ pvalue s ≤ P(S ≥ s − dd)`. -/
@@ -133,6 +237,16 @@ theorem pvalue_bounds_of_steps (hyp : Hyp R syms bg m) (h : build R syms bg m = 
       have : s - dd ≤ v := by linarith
       simpa using this
 
+example : ∃ d, build 4 Witness.syms Witness.bg Witness.mat = some d ∧
+    prob Witness.syms Witness.bg 2 (sGe Witness.mat (1/2 + 3/4)) ≤ d.pvalue (1/2) ∧
+    d.pvalue (1/2) ≤ prob Witness.syms Witness.bg 2 (sGe Witness.mat (1/2 - 3/4)) := by
+  have h : (match build 4 Witness.syms Witness.bg Witness.mat with
+      | some d => decide (((Witness.mat.length : Rat) + 1) / 2 ≤ 3/4 * d.scale) | none => false) = true := by
+    decide +kernel
+  obtain ⟨d, hb, hs, _⟩ := Witness.built
+  rw [hb] at h
+  exact ⟨d, hb, pvalue_bounds_of_steps Witness.hyp hb hs (1/2) (3/4) (by simpa using h)⟩
+
 /-- Clause (3) with the property's `d = (M/2 + 1)` steps, `M/2` read as a rational … -/
 theorem pvalue_bounds (hyp : Hyp R syms bg m) (h : build R syms bg m = some d) (hs : 0 < d.scale)
     (s : Rat) :
@@ -141,6 +255,12 @@ theorem pvalue_bounds (hyp : Hyp R syms bg m) (h : build R syms bg m = some d) (
   apply pvalue_bounds_of_steps hyp h hs
   rw [div_mul_cancel₀ _ hs.ne']
   linarith
+
+example : ∃ d, build 4 Witness.syms Witness.bg Witness.mat = some d ∧ d.pvalue (1/2) = 1/4 ∧
+    prob Witness.syms Witness.bg 2 (sGe Witness.mat (1/2 + (((2 : Nat) : Rat) / 2 + 1) / d.scale)) ≤ d.pvalue (1/2) ∧
+    d.pvalue (1/2) ≤ prob Witness.syms Witness.bg 2 (sGe Witness.mat (1/2 - (((2 : Nat) : Rat) / 2 + 1) / d.scale)) := by
+  obtain ⟨d, hb, hs, _, _, _, hpv, _⟩ := Witness.built
+  exact ⟨d, hb, hpv, pvalue_bounds Witness.hyp hb hs (1/2)⟩
 
 /-- … and with `M/2` read as integer division (the tighter bound, the one the oracle checks) -/
 theorem pvalue_bounds_intdiv (hyp : Hyp R syms bg m) (h : build R syms bg m = some d)
@@ -154,6 +274,12 @@ theorem pvalue_bounds_intdiv (hyp : Hyp R syms bg m) (h : build R syms bg m = so
   push_cast at h3 ⊢
   linarith
 
+example : ∃ d, build 4 Witness.syms Witness.bg Witness.mat = some d ∧
+    prob Witness.syms Witness.bg 2 (sGe Witness.mat (1/2 + (((2 / 2 + 1 : Nat) : Rat)) / d.scale)) ≤ d.pvalue (1/2) ∧
+    d.pvalue (1/2) ≤ prob Witness.syms Witness.bg 2 (sGe Witness.mat (1/2 - (((2 / 2 + 1 : Nat) : Rat)) / d.scale)) := by
+  obtain ⟨d, hb, hs, _⟩ := Witness.built
+  exact ⟨d, hb, pvalue_bounds_intdiv Witness.hyp hb hs (1/2)⟩
+
 /-! ### (4) p-values are non-increasing in the score -/
 
 theorem pvalue_antitone (hyp : Hyp R syms bg m) (h : build R syms bg m = some d) (hs : 0 < d.scale)
@@ -165,11 +291,20 @@ theorem pvalue_antitone (hyp : Hyp R syms bg m) (h : build R syms bg m = some d)
   apply ratRound_mono
   exact mul_le_mul_of_nonneg_right (by linarith) hs.le
 
+example : ∃ d, build 4 Witness.syms Witness.bg Witness.mat = some d ∧ d.pvalue 1 ≤ d.pvalue (1/2) := by
+  obtain ⟨d, hb, hs, _⟩ := Witness.built
+  exact ⟨d, hb, pvalue_antitone Witness.hyp hb hs (by decide +kernel)⟩
+
 /-- p-values lie in `[0, 1]` -/
 theorem pvalue_mem_unit (hyp : Hyp R syms bg m) (h : build R syms bg m = some d) (hs : 0 < d.scale)
     (s : Rat) : 0 ≤ d.pvalue s ∧ d.pvalue s ≤ 1 := by
   rw [pvalue_eq_tail hyp h hs]
   exact ⟨prob_nonneg hyp.bg_nonneg _ _, prob_le_one hyp.bg_nonneg hyp.bg_sum _ _⟩
+
+example : ∃ d, build 4 Witness.syms Witness.bg Witness.mat = some d ∧
+    0 ≤ d.pvalue (-10) ∧ d.pvalue (-10) ≤ 1 := by
+  obtain ⟨d, hb, hs, _⟩ := Witness.built
+  exact ⟨d, hb, pvalue_mem_unit Witness.hyp hb hs (-10)⟩
 
 /-! ### (5) p-value → score → p-value never yields a larger p-value -/
 
@@ -188,6 +323,10 @@ theorem scaleScore_unscale (hyp : Hyp R syms bg m) (h : build R syms bg m = some
   apply clampI32_of_mem
   · unfold I32_MIN; omega
   · rw [hsz] at hx1; omega
+
+example : ∃ d, build 4 Witness.syms Witness.bg Witness.mat = some d ∧ d.scaleScore (d.unscale 5) = 5 := by
+  obtain ⟨d, hb, hs, hsf, _⟩ := Witness.built
+  exact ⟨d, hb, scaleScore_unscale Witness.hyp hb hs (by decide) (by rw [hsf]; decide)⟩
 
 /-- Clause (5): for `p > 0` and any index `x` that `binary_search_by` may return,
     `pvalue (score p) ≤ p` (for `p ≥ 1` the index is irrelevant: `score` returns the minimum). -/
@@ -246,5 +385,72 @@ theorem pvalue_score_le (hyp : Hyp R syms bg m) (h : build R syms bg m = some d)
       · rw [if_neg hb2, hxnat]
         rw [hxnat] at hb2
         exact htab (by omega)
+
+example : ∃ d, build 4 Witness.syms Witness.bg Witness.mat = some d ∧
+    d.pvalue (d.score (1/2) 3) ≤ 1/2 ∧ d.pvalue (d.score (2/5) 4) ≤ 2/5 := by
+  obtain ⟨d, hb, hs, _, _, _, _, ha1, ha2⟩ := Witness.built
+  exact ⟨d, hb, pvalue_score_le Witness.hyp hb hs (by decide +kernel) ha1,
+    pvalue_score_le Witness.hyp hb hs (by decide +kernel) ha2⟩
+
+/-! ### the sub-distribution case and the clamp `1.0` of the code before the repair
+
+Before the repair (`fix:` commit 8d28a79 in the library) `pvalue` returned the constant `1.0` for
+every score below `min_score`.  That is the same function when the table carries all the mass
+(`clampOne_eq_pvalue_of_full_mass`: the hypothesis "background sums to 1 over the symbols with
+finite scores"), and violates clauses (3) and (5) as soon as a symbol with a −∞ entry has
+background mass (`clampOne_counterexample`, on the witness above; the same situation was run on
+the real code, corpus/C11/clamp-one-below-minimum.case). -/
+
+/-- `ScoreDistribution::pvalue` as it stood before the repair -/
+def pvalueClampOne (d : Dist Rat) (s : Rat) : Rat :=
+  if d.scaleScore s < d.minScore then 1 else d.pvalue s
+
+theorem clampOne_eq_pvalue_of_full_mass (hyp : Hyp R syms bg m) (h : build R syms bg m = some d)
+    (hs : 0 < d.scale) (hfull : prob syms bg m.length (dGe d.data 0) = 1) (s : Rat) :
+    pvalueClampOne d s = d.pvalue s := by
+  have F := build_facts hyp h hs
+  unfold pvalueClampOne
+  by_cases hlt : d.scaleScore s < d.minScore
+  · rw [if_pos hlt]
+    unfold Dist.pvalue
+    simp only []
+    rw [if_pos hlt, F.sf d.minScore.toNat (by have := F.min_lt; have := F.min_nonneg; omega)]
+    have hc : ((d.minScore.toNat : Nat) : Int) = d.minScore := by have := F.min_nonneg; omega
+    rw [hc, ← tail_below_min hyp F F.min_nonneg, hfull]
+  · rw [if_neg hlt]
+
+example : ∃ d, build 4 Witness.syms2 Witness.bg2 Witness.mat2 = some d ∧
+    pvalueClampOne d (-10) = d.pvalue (-10) := by
+  have h : (match build 4 Witness.syms2 Witness.bg2 Witness.mat2 with
+      | some d => decide (0 < d.scale) && decide (prob Witness.syms2 Witness.bg2 2 (dGe d.data 0) = 1)
+      | none => false) = true := by decide +kernel
+  cases hb : build 4 Witness.syms2 Witness.bg2 Witness.mat2 with
+  | none => rw [hb] at h; cases h
+  | some d =>
+    rw [hb] at h
+    simp only [Bool.and_eq_true, decide_eq_true_eq] at h
+    exact ⟨d, rfl, clampOne_eq_pvalue_of_full_mass Witness.hyp2 hb h.1 h.2 (-10)⟩
+
+/-- With the clamp, a symbol with background mass and a −∞ score breaks the upper bound of clause
+    (3) (`1 > 3/4 = P(S ≥ s − d)` for a score far below the minimum) and clause (5)
+    (`p = 4/5`: index 0 is admissible, the score maps back to p-value `1 > p`). -/
+theorem clampOne_counterexample :
+    ∃ d, build 4 Witness.syms Witness.bg Witness.mat = some d ∧ 0 < d.scale ∧
+      ¬ pvalueClampOne d (-10) ≤
+          prob Witness.syms Witness.bg 2 (sGe Witness.mat (-10 - (((2 : Nat) : Rat) / 2 + 1) / d.scale)) ∧
+      d.SearchAdmissible (4/5) 0 ∧ ¬ pvalueClampOne d (d.score (4/5) 0) ≤ 4/5 := by
+  have h : (match build 4 Witness.syms Witness.bg Witness.mat with
+      | some d => decide (0 < d.scale) &&
+          decide (¬ pvalueClampOne d (-10) ≤
+            prob Witness.syms Witness.bg 2 (sGe Witness.mat (-10 - (((2 : Nat) : Rat) / 2 + 1) / d.scale))) &&
+          d.searchAdmissibleB (4/5) 0 && decide (¬ pvalueClampOne d (d.score (4/5) 0) ≤ 4/5)
+      | none => false) = true := by decide +kernel
+  cases hb : build 4 Witness.syms Witness.bg Witness.mat with
+  | none => rw [hb] at h; cases h
+  | some d =>
+    rw [hb] at h
+    simp only [Bool.and_eq_true, decide_eq_true_eq] at h
+    obtain ⟨⟨⟨h1, h2⟩, h3⟩, h4⟩ := h
+    exact ⟨d, rfl, h1, h2, (searchAdmissibleB_iff d _ _).mp h3, h4⟩
 
 end LMV.C11
